@@ -1,4 +1,4 @@
-import ScrutModel.Lemmas.CramCount
+import ScrutModel.Lemmas.CramOrphan
 /-!
 # C07 — Cram documents: indented `$` blocks become the written tests, in order
 
@@ -19,14 +19,16 @@ oracle under the class named there):
 
 * `C07:title-not-nearest` — the property says "nearest preceding unindented title line"; the code
   gives `""` to every test after the first one below a title.
-* `C07:orphan-exit-code-adopted`, `C07:orphan-expectation-adopted` — indented lines that are not
-  below a command are not always rejected: they are kept in the engine and become the exit code
-  (even across blank lines) / the first expectations of the **next** command.
+
+Repaired (fix 67abd12, formerly `C07:orphan-exit-code-adopted` / `C07:orphan-expectation-adopted`):
+indented lines that are not below a command used to be kept in the engine and became the exit code
+(even across blank lines) / the first expectations of the **next** command; they are an error now
+(`C07_orphan_lines_rejected`, the two former witnesses are regression theorems).
 -/
 namespace Scrut.Props.C07
 open Scrut.LineParser Scrut.Cram
 
-/-- **C07 (never crashes)**: parsing any text with any indentation either fails with one of the five
+/-- **C07 (never crashes)**: parsing any text with any indentation either fails with one of the six
 `bail!`s of `line_parser.rs` or yields the Cram document configuration and a list of tests.
 (`cram.rs`/`line_parser.rs` contain no index, slice, subtraction or `unwrap`; that the real parser
 does not panic is checked on every generated document by the correspondence.) -/
@@ -112,26 +114,29 @@ theorem C07_title_nearest_fails_on_witness :
     nearestTitles none titleWitness = [['T'], ['T']] := by
   decide
 
-/-! ### Indented lines that are not below a command.  Full strength, **false for the code**:
-a document with an indented non-command line that has no `$ ` line before it in its block does
-not parse (`line_parser.rs` has the error "testcase output expectation(s) given, but no shell
-expression specified" for it), or at least such a line never changes a test. -/
+/-! ### Indented lines that are not below a command are an error (full strength since fix 67abd12) -/
 
-/-- **witness** (`C07:orphan-exit-code-adopted`): `  [1]⏎⏎  $ a⏎` parses, and the test `a` of
-the *other* block expects exit code 1: `exit_code` is only reset when a test is pushed, a blank
-line calls `end_testcase` only if `has_testcase_body()` (which ignores the exit code), and a `$ `
-line does not call it when no command is open.  (Since fix 0c1f918 `end_testcase` rejects an exit
-code without command, which makes `  [1]⏎T⏎  $ a⏎` an error — a title line always calls it.) -/
-theorem C07_orphan_exit_code_fails_on_witness :
-    (parseCram (fun _ => true) 2 "  [1]\n\n  $ a\n".toList).toOption.map (·.2.map (·.exitCode)) = some [some 1] := by
-  decide
+/-- **C07 (orphan lines are rejected)**, for *every* text: if some line is indented, not empty, not a
+`#` line and not a command start (`isBodyLine`: an expectation, `[n]` or `> ` line), and no command
+is open before it (`closedAfter`: the last non-`#` line before it is blank or unindented, or there
+is none), the document does not parse — such a line can never change a later test. -/
+theorem C07_orphan_lines_rejected (expOk : List Char → Bool) (n : Nat) (text : List Char)
+    (pre post : List (List Char)) (line : List Char) (ht : lines text = pre ++ line :: post)
+    (hp : closedAfter (indentOf n) pre = true) (hl : isBodyLine (indentOf n) line = true) :
+    ∃ e : Err, parseCram expOk n text = .error e :=
+  parseCram_orphan expOk n text pre post line ht hp hl
 
-/-- **witness** (`C07:orphan-expectation-adopted`): in `  ⏎  $ a⏎` the whitespace-only line above the
-command becomes the expectation `""` of `a` (a `$ ` line does not call `end_testcase` when no
-command is open). -/
-theorem C07_orphan_expectation_fails_on_witness :
-    (parseCram (fun _ => true) 2 "  \n  $ a\n".toList).toOption.map (·.2.map (·.expectations)) = some [[[]]] := by
-  decide
+/-- **regression** (was the witness of `C07:orphan-exit-code-adopted`): `  [1]⏎⏎  $ a⏎` used to give
+the test `a` of the other block the exit code 1; it is an error at line 1 now. -/
+theorem C07_orphan_exit_code_regression :
+    parseCram (fun _ => true) 2 "  [1]\n\n  $ a\n".toList = .error (.bodyWithoutCommand 1) := by
+  rfl
+
+/-- **regression** (was the witness of `C07:orphan-expectation-adopted`): in `  ⏎  $ a⏎` the
+whitespace-only line above the command used to become the expectation `""` of `a`; error now. -/
+theorem C07_orphan_expectation_regression :
+    parseCram (fun _ => true) 2 "  \n  $ a\n".toList = .error (.bodyWithoutCommand 1) := by
+  rfl
 
 /-! Non-vacuity -/
 
@@ -152,5 +157,8 @@ example : sample.tests.map (fun t => (t.title, t.shellExpression, t.expectations
 
 example : cmdLinesFrom (indentOf 2) 0 (lines (render 2 sample)) =
     [(4, some ['a']), (12, some ['c']), (16, some ['d'])] := by decide
+
+example : closedAfter (indentOf 2) [['T'], [' ', ' ', '$', ' ', 'a'], [], ['#']] = true ∧
+    isBodyLine (indentOf 2) [' ', ' ', '[', '1', ']'] = true ∧ isBodyLine (indentOf 2) [' ', ' '] = true := by decide
 
 end Scrut.Props.C07
